@@ -121,6 +121,8 @@ def oracle(case: Case, out: str):
         if u2 == "eternity" or n2 < 1:
             return None
         lo2, hi2 = O(s2), end_ord(u2, s2, n2)
+        if hi2 > dt.date.max.toordinal() - 800:
+            return None
         want = "T" if (lo <= lo2 and hi2 <= hi) else "F"
         if out != want:
             return ("contains", f"contains={out}, day sets say {want}")
@@ -248,7 +250,21 @@ def _tok(u, s, n):
     return f"{u}/{fmt_date(s)}/{n}"
 
 
+EDGE_HI = O((9990, 1, 1))
+
+
 def cases_for(rng: random.Random, u, s, n):
+    out = _cases_for(rng, u, s, n)
+    # pendulum raises when any intermediate date leaves years 1..9999: periods touching that
+    # edge are answered and compared with the model, but are outside the claim domain
+    if end_ord(u, s, n) > EDGE_HI or s[0] < 2:
+        for c in out:
+            c.claimed = False
+            c.tags = c.tags + ("range-edge",)
+    return out
+
+
+def _cases_for(rng: random.Random, u, s, n):
     p = _tok(u, s, n)
     out = [_mk("stop", p, tags=(u,)), _mk("days", p, tags=(u,))]
     for op in SIZES:
